@@ -171,7 +171,13 @@ class Tracer:
         elif k == 'if':
             v = self.val(s['c'], zero_calls=0)
             if v is None:
-                raise bm.AnalysisBroken('%s: condition at %s depends on run-time data other than identity tests' % (self.fn['qn'], loc_str(s)))
+                # the loop over the pairs of a list is evaluated for ONE generic pair: a condition that reads anything else at run time
+                # (the pair's position, a flag) makes the events a pair receives depend on the shape of the list
+                self.problems.append(('uniform', loc_str(s), 'the condition at %s depends on run-time data other than the identity tests (e.g. the '
+                                      'position of the pair in its list): pairs are not all processed by the same sequence of line evaluations / '
+                                      'accumulator updates, so the result is not the product of the single pairings for every list shape' % loc_str(s)))
+                self.stmt(s.get('else'), group)
+                return
             self.stmt(s['then'] if v else s.get('else'), group)
         elif k == 'for':
             init = s.get('init')
